@@ -464,3 +464,88 @@ Proof.
 Qed.
 
 End separators.
+
+(** * Literal prefixes: "dir/*" *)
+
+Section literal_prefix.
+
+(** A byte that stands for itself in a pattern. *)
+Definition is_lit (c : N) : bool :=
+  negb (c =? c_star) && negb (c =? c_quest) && negb (c =? c_lbr) && negb (c =? c_bslash).
+
+Lemma is_lit_inv c : is_lit c = true ->
+  (c =? c_star) = false /\ (c =? c_quest) = false /\ (c =? c_lbr) = false /\ (c =? c_bslash) = false.
+Proof.
+  unfold is_lit. intros H. repeat (apply andb_true_iff in H as [H ?]).
+  repeat split; apply negb_true_iff; assumption.
+Qed.
+
+Lemma lit_plain l : forallb is_lit l = true -> mem c_lbr l = false /\ mem c_bslash l = false.
+Proof.
+  induction l as [|c l IH]; cbn [forallb]; [split; reflexivity|]. intros H.
+  apply andb_true_iff in H as [H1 H2]. apply is_lit_inv in H1 as (_ & _ & H3 & H4).
+  destruct (IH H2) as [I1 I2]. unfold mem in *. cbn [existsb].
+  rewrite (N.eqb_sym c_lbr c), (N.eqb_sym c_bslash c), H3, H4. auto.
+Qed.
+
+Lemma match_chunk_literal : forall fuel chunk s failed t,
+  forallb is_lit chunk = true ->
+  match_chunk fuel chunk s failed = GOk (Some t) -> failed = false /\ s = chunk ++ t.
+Proof.
+  induction fuel as [|f IH]; intros chunk s failed t Hl; cbn [match_chunk]; [discriminate|].
+  destruct chunk as [|c ctl].
+  - destruct failed; [discriminate|]. intros [= <-]. auto.
+  - cbn [forallb] in Hl. apply andb_true_iff in Hl as [Hc Hl].
+    apply is_lit_inv in Hc as (_ & Hq & Hb & Hs). rewrite Hb, Hq, Hs.
+    destruct (failed || is_nil s) eqn:Ef.
+    + intros H. apply IH in H as [H _]; auto. discriminate.
+    + apply orb_false_iff in Ef as [-> Hn]. destruct s as [|b0 s0]; [discriminate|].
+      intros H. apply IH in H as [Heq Htl]; auto. cbn [hd tl] in Heq, Htl.
+      apply negb_false_iff, N.eqb_eq in Heq. subst b0 s0. auto.
+Qed.
+
+Lemma scan_literal lit rest :
+  forallb is_lit lit = true -> scan (lit ++ c_star :: rest) false = (lit, c_star :: rest).
+Proof.
+  induction lit as [|c l IH]; cbn [forallb app]; [reflexivity|]. intros H.
+  apply andb_true_iff in H as [Hc Hl]. apply is_lit_inv in Hc as (Hst & _ & Hb & Hs).
+  cbn [scan]. rewrite Hs, Hb, Hst, (IH Hl). cbn [andb]. destruct (c =? c_rbr); reflexivity.
+Qed.
+
+(** A pattern that starts with literal bytes and continues with a star only
+    matches names that start with those bytes. *)
+Theorem glob_literal_prefix lit rest name :
+  lit <> [] -> forallb is_lit lit = true ->
+  glob_match (lit ++ c_star :: rest) name = GOk true -> exists t, name = lit ++ t.
+Proof.
+  intros Hne Hl. unfold glob_match. cbn [match_loop].
+  destruct lit as [|c l]; [congruence|]. cbn [app]. unfold scan_chunk.
+  pose proof Hl as Hl0. cbn [forallb] in Hl. apply andb_true_iff in Hl as [Hc _].
+  apply is_lit_inv in Hc as (Hst & _). cbn [strip_stars]. rewrite Hst.
+  change (c :: l ++ c_star :: rest) with ((c :: l) ++ c_star :: rest).
+  rewrite (scan_literal _ _ Hl0). cbn [andb].
+  destruct (match_chunk _ (c :: l) name false) as [[t|]| |] eqn:Em; try discriminate.
+  apply match_chunk_literal in Em as [_ ->]; auto. intros _. exists t. reflexivity.
+Qed.
+
+(** "dir/*": the match is [dir], a separator, and one separator-free element. *)
+Theorem glob_dir_star d name :
+  forallb is_lit d = true ->
+  glob_match (d ++ [sep; c_star]) name = GOk true ->
+  exists x, name = d ++ sep :: x /\ mem sep x = false.
+Proof.
+  intros Hd Hm.
+  assert (Hl : forallb is_lit (d ++ [sep]) = true) by (rewrite forallb_app, Hd; reflexivity).
+  replace (d ++ [sep; c_star]) with ((d ++ [sep]) ++ c_star :: []) in Hm
+    by (rewrite <- app_assoc; reflexivity).
+  destruct (glob_literal_prefix (d ++ [sep]) [] name) as [x Hx]; auto.
+  { destruct d; discriminate. }
+  exists x. rewrite <- app_assoc in Hx. split; [exact Hx|].
+  apply glob_match_slashes in Hm.
+  - rewrite Hx in Hm. rewrite !count_app in Hm. cbn [count app] in Hm.
+    apply mem_count. cbn in Hm. lia.
+  - destruct (lit_plain _ Hl) as [H1 H2]. unfold plain_pattern.
+    rewrite (mem_app c_lbr (d ++ [sep])), (mem_app c_bslash (d ++ [sep])), H1, H2. reflexivity.
+Qed.
+
+End literal_prefix.
